@@ -13,9 +13,9 @@ CLAIMS = {
  'C02': dict(text="Machine-checked theorems (Coq) that the read methods, as GENERATED from read.py/loader.py, return exactly the specification decoder's cells for all well-formed headers and in-range arguments; partial: proved for inline, crossline and z-slice reads of the default layout, the remaining paths are covered by the correspondence check (model = implementation = specification decoder) only.",
              note="codec abstract (provenance); translator + Lib/Py.v semantics trusted; correspondence model=implementation on every run",
              technique="Coq proof over a model regenerated from source + differential correspondence"),
- 'C03': dict(text="Coq theorems: the version encoding generated from version.py is a bijection on all majors and strictly monotone for the release order; gates mean what the specification says. Container layout theorems: see evidence.theorems.",
-             note="string constructor is a hand model pinned to the source text",
-             technique="Coq proof (arithmetic) + correspondence"),
+ 'C03': dict(text="Coq theorems: (version) the encoding GENERATED from version.py is a bijection on all majors and strictly monotone for the release order, gates mean what the specification says; (container, converters) for every valid setting and cube the header fields GENERATED from make_header state the true dimensions/rate/blockshape/trace count, the header is well-formed (one block = 4096 bytes), the stated disk blocks are exactly padded voxels x bits / 8 = unit bytes x the number of units the producers write (C01), and the footer stride both write_headers use equals the stride the GENERATED reader derives for post-0.2.1 files, so array k sits where the reader looks. Cropper / re-blocker conformance: C10 / C12. Known finding D19 (version strings without a patch component).",
+             note="string constructor is a hand model pinned to the source text; compositions of writers covered by the container harness (spec-only decoder) and by C10/C12 preserving well-formedness",
+             technique="Coq proof (arithmetic) over generated header fields + correspondence + specification-only decoder oracle on every writer and composition"),
  'C07': dict(text="Coq theorems on the generated read plans (exactly which ranges are issued: inline, crossline, z-slice of the default layout) + exact comparison of observed range reads with the model for all paths",
              note="I/O traces compared after coalescing adjacent ranges",
              technique="Coq proof over generated read plans + I/O trace correspondence"),
